@@ -71,6 +71,7 @@ KINDS = {
     "managed": {"spec": "ManagedPool.tla", "monitor": "ManagedObs.tla", "base": configs.BASE, "hcfg": tlcgraph.harness_cfg},
     "unmanaged": {"spec": "UnmanagedPool.tla", "monitor": "UnmanagedObs.tla", "base": configs.UBASE,
                   "hcfg": tlcgraph.harness_cfg_unmanaged},
+    "sync": {"spec": "SyncWrapper.tla", "monitor": "SyncObs.tla", "base": configs.SBASE, "hcfg": tlcgraph.harness_cfg_sync},
 }
 
 
@@ -111,7 +112,8 @@ def run_cases(name, part, workdir, binary=None):
     return info
 
 
-def run_config(pid, name, consts, invariants, actprops, workdir, obs_sample, replay=True, kind="managed", hcfg_extra=None):
+def run_config(pid, name, consts, invariants, actprops, workdir, obs_sample, replay=True, kind="managed", hcfg_extra=None,
+               threads=None):
     """TLC on one configuration (+ tour + replay).  Returns a dict of measurements."""
     K = KINDS[kind]
     os.makedirs(workdir, exist_ok=True)
@@ -145,13 +147,13 @@ def run_config(pid, name, consts, invariants, actprops, workdir, obs_sample, rep
     res_file = os.path.join(workdir, name + ".result.json")
     obs_file = os.path.join(workdir, name + ".obs.ndjson")
     t0 = time.time()
-    p = subprocess.run([MH, "replay", paths_file, "--result", res_file, "--obs", obs_file, "--threads", str(WORKERS),
+    p = subprocess.run([MH, "replay", paths_file, "--result", res_file, "--obs", obs_file, "--threads", str(threads or WORKERS),
                         "--obs-sample", str(obs_sample)], capture_output=True, text=True)
     if p.returncode != 0 or not os.path.exists(res_file):
         sys.stderr.write(p.stdout[-2000:] + p.stderr[-4000:])
         raise ToolError("replay harness failed on config %s" % name)
     rr = json.load(open(res_file))
-    info.update({"replayed": rr["paths"], "conform": rr["conform"], "nonconform": rr["nonconform"], "hung": rr["hung"],
+    info.update({"replayed": rr["paths"], "conform": rr["conform"], "nonconform": rr["nonconform"], "hung": rr["hung"], "inconclusive": rr.get("inconclusive", 0),
                  "replay_s": round(time.time() - t0, 2), "first_divergences": rr["first_divergences"][:3],
                  "nonconform_ids": rr["nonconform_ids"][:50]})
     mon = obsmon.monitor(obs_file, hcfg, os.path.join(workdir, "obsmon_" + name), spec=K["monitor"])
@@ -237,10 +239,11 @@ def managed_check(pid, tier, seed):
         kind = opts.get("kind", spec.get("kind", "managed"))
         struct = configs.STRUCT if kind == "managed" else configs.USTRUCT
         preds = opts.get("preds", spec["preds"])
+        threads = 4 if kind == "sync" else None
         log("[%s] config %s: TLC%s ..." % (pid, name, " + tour + replay" if replay else " (model checking only)"))
         info = run_config(pid, name, consts, struct + opts.get("invariants", spec["invariants"]), opts.get("actprops", spec["actprops"]),
                           workdir, obs_sample=spec.get("obs_sample", {}).get(tier, 50), replay=replay, kind=kind,
-                          hcfg_extra=opts.get("hcfg"))
+                          hcfg_extra=opts.get("hcfg"), threads=threads)
         info["kind"] = kind
         infos.append(info)
         log("[%s]   %d distinct states, %d transitions, depth %d, %.1fs" % (pid, info["states"], info["transitions"], info["depth"], info["tlc_s"]))
